@@ -4,7 +4,7 @@
    worker count W, request list, Scan outcome function, request-channel capacity and schedule. *)
 From stdpp Require Import gmultiset list.
 From SX Require Import Base.Net Base.NetExec Model.AppEngine Model.AppEngineShape
-                       Proofs.AppEngineProofs Proofs.AppEngineOrder.
+                       Proofs.AppEngineProofs Proofs.AppEngineOrder Proofs.AppEngineScans.
 
 (* every generated target is accounted for, in every reachable state that was not cancelled *)
 Theorem C08_conservation : forall W scan_out cap reqs n,
@@ -24,6 +24,14 @@ Theorem C08_probe_once : forall W scan_out reqs, NoDup (fst <$> reqs) -> forall 
   0 < W -> reachable (beh W scan_out) (init W cap reqs) n -> cancelled n = false ->
   chan_closed n c_done -> has reqs id false -> multiplicity id (scans_of n) = 1.
 Proof. exact engine_probe_once. Qed.
+
+(* the same as one statement about the whole log: when completion is signalled the targets handed to
+   Scan, in call order, are a permutation of the error-free requests -- none missing, none extra,
+   none repeated *)
+Theorem C08_scans_exact : forall W scan_out reqs, NoDup (fst <$> reqs) -> forall cap n,
+  0 < W -> reachable (beh W scan_out) (init W cap reqs) n -> cancelled n = false -> chan_closed n c_done ->
+  scan_list n ≡ₚ good_list reqs.
+Proof. exact engine_scans_exact. Qed.
 
 (* results and errors agree with the fate of their request: a result is printed only for a target
    whose probe detected a service, an error is logged only for a failed request or probe *)
@@ -77,6 +85,7 @@ Proof. vm_compute. repeat split; eauto. Qed.
 Print Assumptions C08_conservation.
 Print Assumptions C08_probe_at_most_once.
 Print Assumptions C08_probe_once.
+Print Assumptions C08_scans_exact.
 Print Assumptions C08_fates.
 Print Assumptions C08_printed_if_drained.
 Print Assumptions C08_errors_once.
